@@ -55,11 +55,6 @@ def cls_zeros_before_exponent(a, b):
             and expo_a == expo_b)
 
 
-def cls_leading_zero(token):
-    body = token.lstrip('+-')
-    return len(body) > 1 and body.startswith('0') and body.isdigit()
-
-
 def cls_like_void(cell):
     '''LIKE n BUT MAT=0 without RHO.'''
     but = cell.get('but') or {}
@@ -124,8 +119,7 @@ def check_file(deck, t4, rng, n_points=200, compositions=True):
                                         f'{vid} that is not in the geometry'})
         if compositions and name not in comp_names:
             tok = parse_name(name)
-            cls = 'material_leading_zero' if tok and cls_leading_zero(tok[0]) \
-                else None
+            cls = None
             if tok and tok[0] == '0' and tok[1] is not None and any(
                     cls_like_void(c) for c in deck['cells']):
                 cls = 'like_but_mat_void'
@@ -181,8 +175,7 @@ def check_file(deck, t4, rng, n_points=200, compositions=True):
         if int(leaf['mat']) == 0:
             stats['void'] += 1
             if name != 'm0':
-                cls = 'material_leading_zero' if cls_leading_zero(mat_tok) \
-                    else None
+                cls = None
                 if cls_like_void(raw) and mat_tok == '0':
                     cls = 'like_but_mat_void'
                 failures.append({'kind': 'void-not-m0', 'cls': cls,
